@@ -53,6 +53,7 @@ def gen_world(rng, i, tier):
                 if n["t"] == "f":
                     n["delim"] = D[0] if D else "="
                     n.pop("noise", None)
+                    n.pop("c", None)           # raw tiny contents were written for the tree's own comment character
             if lw["cfg"].get("cwd"):
                 w["cfg"]["cwd"] = lw["cfg"]["cwd"]
             w["layered"] = {"read": lw["read"], "nodes": lw["nodes"]}
